@@ -201,12 +201,15 @@ PROPS = {
     "C04": dict(
         coq="Properties/C04.v",
         suites=[dict(STAGE_SUITE, oracles=["delivered_before_predecessor"], diffs=["finals", "log", "status"]),
-                race_suite(["delivered_before_predecessor", "complete_file_not_delivered"])],
-        rule=STAGE_RULE + RACE_RULE,
+                race_suite(["delivered_before_predecessor", "complete_file_not_delivered"]),
+                dict(name="queue", pkg="./queue/", test="TestVerifQueue", min_lines=1000,
+                     oracles=["wrong_predecessor", "names_itself"], diffs=["pop-prev"])],
+        rule=STAGE_RULE + RACE_RULE + " " + QUEUE_RULE,
         level_text=("Proof (step level): the finalize handler logs/delivers a file only if its predecessor reference is empty, itself, found in the log, or "
                     "known delivered; otherwise the validated file is parked (held_is_waiting); delivery is one log record then the move. The history-level "
                     "ordering of the receive log is evaluated as an oracle on every implementation trace (cycles cleared by the cleaner exempt); end-to-end "
-                    "composition with C10 is argued in DESIGN, not yet a theorem."),
+                    "composition with C10 is argued in DESIGN, not yet a theorem; the sender's half - which predecessor a file is announced with - is C10's "
+                    "model, and its suite (queue) runs here too, since the receiver can only order what it is told."),
         level_note=STAGE_NOTE,
         technique="Coq proof (step theorems on the finalize handler) + operation-sequence differential testing + log-order oracle",
         assumptions=["predecessor identity is the name; log look-ups are modelled over the whole log"],
